@@ -28,6 +28,7 @@ EvKind(e) == IF Lite(e) THEN e.k
 EvFrom(e) == IF Lite(e) THEN e.from ELSE IF e.call = "data" /\ e.args.hok THEN e.args.h.src ELSE NoId
 EvDin(e) == IF Lite(e) THEN e.din ELSE IF e.call = "data" THEN e.args.mem ELSE <<>>
 EvId(e) == IF Lite(e) THEN e.id ELSE e.pub.id
+EvAcc(e) == IF Lite(e) THEN e.acc ELSE e.call = "data" /\ e.args.hok /\ e.args.h.dst = e.pub.id
 EvSame(e) == Lite(e) /\ e.same
 EvState(e) == IF Lite(e) THEN e.state ELSE e.pub.state
 
